@@ -62,3 +62,22 @@ var mapcondTable = map[string]func(k, v int) bool{
 }
 
 var mapcondNames = []string{"keqv", "kltv", "vneg", "kodd", "always", "never"}
+
+// sumidx: func(i, v int) int (SliceSum); sumkv: func(k, v int) int (MapSum)
+var sumIdxTable = map[string]func(i, v int) int{
+	"val":    func(i, v int) int { return v },
+	"idxval": func(i, v int) int { return i + v },
+	"wt":     func(i, v int) int { return i * v },
+	"one":    func(i, v int) int { return 1 },
+}
+
+var sumIdxNames = []string{"val", "idxval", "wt", "one"}
+
+var sumKVTable = map[string]func(k, v int) int{
+	"val": func(k, v int) int { return v },
+	"key": func(k, v int) int { return k },
+	"kv":  func(k, v int) int { return k * v },
+	"one": func(k, v int) int { return 1 },
+}
+
+var sumKVNames = []string{"val", "key", "kv", "one"}
